@@ -147,7 +147,8 @@ func (g *GoFakeS3) hostBucketBaseMiddleware(handler http.Handler) http.Handler {
 				continue
 			}
 			bucket = host[:len(host)-len(base)]
-			if idx := strings.IndexByte(bucket, '.'); idx >= 0 {
+			if bucket == "" || strings.IndexByte(bucket, '.') >= 0 {
+				// not '<single label>.<base>': served path-style
 				continue
 			}
 			return bucket, true
